@@ -344,6 +344,7 @@ def do_instance(binp, prop, tier, inst):
         records = []
         order = []
         evdiff = []
+        regdiff = []
         for s, e, racy in scen:
             r = byid.get(s["id"])
             if r is None:
@@ -359,6 +360,8 @@ def do_instance(binp, prop, tier, inst):
                     out["nonconf"].append({"instance": inst, "scenario": s["id"], "why": why[:400]})
                 if why.startswith("events differ") and not r["diverged"]:
                     evdiff.append((s, r, why, e))
+                if why.startswith("registry differs") and not r["diverged"]:
+                    regdiff.append((s, r, why, e))
             records.append(normalise(r, inst))
             order.append(s)
         out["cov"] = {"instance": inst, "scenarios": len(scen), "ran": len(records), "conformant": nconf,
@@ -385,6 +388,16 @@ def do_instance(binp, prop, tier, inst):
                 if confirm_events(sc, binp, inst, rf, pyinst):
                     out["violations"].append((rf, "lifecycle events published in scenario %s of %s differ from the occurrences: %s" % (s["id"], inst, why[:300])))
             return out
+        if prop == "C10":
+            # GetPID(id) resolves exactly the live actors: in a steered run that conformed up to the end the registry must
+            # be the model's (reproduced in a second run before it counts)
+            for s, r, why, e in regdiff[:2]:
+                rf = {"kind": "registry", "instance": inst, "config": json.loads(pyinst.config_line()), "scenario": s, "why": why,
+                      "expected_registry": e["reg"]}
+                if confirm_registry(sc, binp, inst, rf):
+                    out["violations"].append((rf, "at the end of scenario %s of %s the registry differs from the actors that are live: %s" % (s["id"], inst, why[:200])))
+            if out["violations"]:
+                return out
         # verdict by TLC on the recorded histories
         r = trace_check(sc, inst, records, TRACE_INV[prop], "%s_%s" % (prop, inst))
         if r.violated:
@@ -536,6 +549,24 @@ def confirm_events(sc, binp, inst, rf, pyinst):
     return True
 
 
+def confirm_registry(sc, binp, inst, rf):
+    """re-run the scenario twice: the registry mismatch must reproduce in a steered, undiverged run"""
+    actors = INST[inst][1]
+    for _ in range(2):
+        p = vlib.run([binp, "-in", write_single(sc, rf), "-out", sc.path("single.out")], ok_codes=None, timeout=120)
+        if p.returncode != 0:
+            return False
+        recs = [json.loads(l) for l in open(sc.path("single.out")) if l.strip()]
+        if not recs or recs[0]["diverged"]:
+            return False
+        owners = {}
+        for a, want in rf["expected_registry"].items():
+            owners[id_owner(actors, a)] = owners.get(id_owner(actors, a), False) or want
+        if all(recs[0]["reg"].get(a) == want for a, want in owners.items()):
+            return False
+    return True
+
+
 def write_single(sc, rf):
     p = sc.path("single.ndjson")
     with open(p, "w") as f:
@@ -574,7 +605,9 @@ def confirm_history(sc, binp, prop, inst, rf, tries=6):
 
 def do_replay(sc, binp, prop, path):
     rf = json.load(open(path))
-    if rf.get("kind") == "process-death":
+    if rf.get("kind") == "registry":
+        ok = confirm_registry(sc, binp, rf["instance"], rf)
+    elif rf.get("kind") == "process-death":
         ok = confirm_death(sc, binp, rf)
     else:
         ok = confirm_history(sc, binp, prop, rf["instance"], rf)
